@@ -46,6 +46,15 @@ CLAIMS["C21"] = (
     "reach the backends only through doQuery is read from the call structure, not mechanised.",
     "DESIGN.md section 4, C21")
 
+CLAIMS["C34"] = (
+    "getSeqFromDB succeeds only when both fields of the reply parse and the increment is positive, and then caches exactly the granted "
+    "block (curr, curr+incr]; a failed fetch leaves the cached block unchanged; NextSeq returns values that are strictly increasing per "
+    "object, lie inside the cached block and come from a successfully parsed reply after a refetch (ghost record of the parsed reply).",
+    "Trusted: the stored function's grants are increasing and below 2^61 (database model, assumed clause), strconv.ParseInt / strings.Split, "
+    "backend connection methods do not write the sequence object, sync.Mutex makes NextSeq atomic (no concurrency modelled); disjointness "
+    "across proxies is the meta-argument 'disjoint grants' and is not mechanised.",
+    "DESIGN.md section 4, C34")
+
 NA = {
 }
 
